@@ -20,6 +20,7 @@ def pi8 (s : Stack) : Outgoing × List (Dest × (Bool × Nat)) := (s.outgoing, s
 @[simp] theorem pi8_with_instances (s : Stack) (x : List Instance) : pi8 { s with instances := x } = pi8 s := rfl
 @[simp] theorem pi8_with_collectors (s : Stack) (x : List Collector) : pi8 { s with collectors := x } = pi8 s := rfl
 @[simp] theorem pi8_with_nextCid (s : Stack) (x : Nat) : pi8 { s with nextCid := x } = pi8 s := rfl
+@[simp] theorem pi8_with_flushLog (s : Stack) (x : List (Dest × List SDEntry)) : pi8 { s with flushLog := x } = pi8 s := rfl
 @[simp] theorem pi8_with_tasks_nextTid (s : Stack) (x : List (Nat × TaskSt)) (y : Nat) : pi8 { s with tasks := x, nextTid := y } = pi8 s := rfl
 @[simp] theorem pi8_with_coll_nextCid (s : Stack) (x : List Collector) (y : Nat) : pi8 { s with collectors := x, nextCid := y } = pi8 s := rfl
 
